@@ -69,9 +69,26 @@ struct C17 : Scenario {
             c.grid = r.range(8, 24);
             for (int tries = 0; tries < 20; tries++) { c.H = (double)r.range(20, 600); if (derive(c).spacing_ps >= 1.0) break; c.H = 50; }
         }
-        if (r.chance(0.2)) c.steps_per_rev = r.uniform(0.05, 0.5);
+        // long histories on a tiny grid: per-step tables and queues (RF modulation, tracks, record buffers) are filled and consumed
+        // in blocks; step counts are placed just past powers of two so that a block boundary is crossed
+        bool longrun = r.chance(0.07);
+        if (longrun) {
+            c.grid = r.range(8, 10); c.steps = r.range(50, 200);
+            long base = r.pick(std::vector<long>{1024, 2048, 4096, 8192, 16384, 16384, 32768, 65536});
+            if (tier == "quick" && base > 16384 && r.chance(0.7)) base = 16384;
+            long nsteps = base + r.range(1, 40) + (r.chance(0.3) ? r.range(0, 3000) : 0);
+            c.rotations = (nsteps - 0.5) / (double)c.steps;
+            c.outstep = r.pick(std::vector<long>{0, 4096, nsteps / 3 + 1, 1000});
+            c.saveps = 0; c.gap = 0; c.wallcond = 0; c.collimator = 0; c.currents = {1e-3};
+            if (r.chance(0.8) && c.rf_mod_ampl == 0 && c.rf_phase_spread == 0 && c.rf_ampl_spread == 0) {
+                int k = (int)r.range(0, 2);
+                if (k == 0) { c.rf_mod_ampl = r.uniform(0.1, 2); c.rf_mod_freq = 3e4; } else if (k == 1) c.rf_phase_spread = r.uniform(0.01, 1); else c.rf_ampl_spread = r.uniform(1e-4, 1e-2);
+            }
+        }
+        if (!longrun && r.chance(0.2)) c.steps_per_rev = r.uniform(0.05, 0.5);
         if (r.chance(0.1)) c.outstep = 0;
-        if (r.chance(0.2)) c.fs = r.uniform(5e3, 8e4);
+        if (!longrun && r.chance(0.2)) c.fs = r.uniform(5e3, 8e4);
+        if (longrun) p.seti("longrun", 1);
         // run-time bound of the harness (not of the property): very short natural bunch lengths make the bucket spacing,
         // hence the transform length, explode (impedance models over 10^5..10^6 frequencies take minutes under ASan)
         {
@@ -111,6 +128,7 @@ struct C17 : Scenario {
             c.tracking = "track.txt";
             std::string t;
             int k = (int)r.range(0, 4);
+            if (longrun && k == 3) k = 1;
             if (k == 0) { t = gen_tracking(r, c, r.range(1, 6)); addop("trk_interior"); }
             else if (k == 1) { // exactly on edges and corners
                 for (auto q : {d.qmin, d.qmax}) for (auto pp : {d.pmin, d.pmax, (d.pmin + d.pmax) / 2}) t += fmt_g(q, 9) + " " + fmt_g(pp, 9) + "\n";
@@ -210,6 +228,7 @@ struct C17 : Scenario {
         if (d.nbuckets > 1 && d.nbunches < d.nbuckets) o.probe("reach.empty_buckets");
         if (cfg.grid % 2) o.probe("reach.odd_grid");
         if (cfg.interp == 1) o.probe("reach.interp1");
+        if (plan.geti("longrun", 0)) o.probe(d.laststep > 16384 ? "reach.more_than_16384_steps" : d.laststep > 4096 ? "reach.more_than_4096_steps" : "reach.more_than_1024_steps");
         std::string wk = !d.has_wake ? "nowake" : !cfg.impedance.empty() ? "file" : cfg.gap < 0 ? "free" : cfg.wallcond > 0 ? "rw" : cfg.collimator > 0 ? "coll" : "pp";
         std::string opkinds;
         for (auto& op : split(ops, ',')) { std::string k = op; if (starts_with(k, "imp_rows")) k = "imp_rows"; opkinds += (opkinds.empty() ? "" : "+") + k; }
